@@ -31,6 +31,7 @@ class PSym(KSym):
         I.insert(0, (r'^curve25519_dalek::edwards::EdwardsPoint::vartime_double_scalar_mul_basepoint$', self.p_dsm))
         I.insert(0, (r'^curve25519_dalek::edwards::CompressedEdwardsY::decompress$', self.p_decompress))
         I.insert(0, (r'^curve25519_dalek::edwards::EdwardsPoint::is_small_order$', self.p_small))
+        I.insert(0, (r'^<T as curve25519_dalek::traits::IsIdentity>::is_identity$', self.p_ident))
         I.insert(0, (r'^<curve25519_dalek::edwards::CompressedEdwardsY as core::cmp::PartialEq>::eq$', self.c_eq))
         I.insert(0, (r'^<curve25519_dalek::edwards::CompressedEdwardsY as subtle::ConstantTimeEq>::ct_eq$', self.c_eq))
     def sval(self, p):
@@ -63,6 +64,9 @@ class PSym(KSym):
         return None
     def p_small(self, it, a, name):
         g = self.get(a[0]); v = self.oracle.decide(("small", repr(g)), "%r has small order?" % (g,))
+        return Poly.const(1 if v else 0)
+    def p_ident(self, it, a, name):
+        g = self.get(a[0]); v = self.oracle.decide(("ident", repr(g)), "%r is the identity?" % (g,))
         return Poly.const(1 if v else 0)
     def c_eq(self, it, a, name):
         x = self.regions[a[0].r].b.get(a[0].o); y = self.regions[a[1].r].b.get(a[1].o)
